@@ -227,6 +227,10 @@ type session struct {
 	gate       *sched.Gate // armed / holding gate of a directed scenario
 	stopped    bool
 	stopAt     int64 // clock value when StopThreads returned
+
+	stream       string
+	idx          int
+	deadReported bool
 }
 
 func newSession(c *core.Ctx, p *prog, cfg dcfg) (*session, error) {
@@ -647,6 +651,22 @@ func (s *session) findStuck() *stuckInfo {
 	return nil
 }
 
+// reportDead files the verdict on a debugger command that did not return.
+func (s *session) reportDead() {
+	if s.deadReported {
+		return
+	}
+	s.deadReported = true
+	d := map[string]interface{}{"program": s.x.p.src, "command": s.dbg.deadCmd, "hooks": s.hookTail(30)}
+	if s.dbg.witness == "" {
+		s.c.Inconclusive("a debugger command did not return and no witness was found", s.stream, s.idx, d)
+		return
+	}
+	d["goroutines"] = trunc(s.dbg.witness, 6000)
+	s.c.Event("violation.dbg-lock-held-for-good", 1)
+	s.c.Violation("dbg-lock:held-for-good", "a debugger command never returns: it is parked on the debugger's lock and every goroutine inside the debugger is parked too, so the suspended threads can never be resumed", s.stream, s.idx, d)
+}
+
 func (s *session) progress() int64 {
 	return atomic.LoadInt64(&s.m.nvisits) + atomic.LoadInt64(&s.m.nhooks)
 }
@@ -663,6 +683,11 @@ func (s *session) drive(until []chan struct{}, onStuck func(si *stuckInfo)) stri
 	const lookFirst = 400 * time.Microsecond
 	look := lookFirst
 	for {
+		if atomic.LoadInt32(&s.dbg.dead) == 1 {
+			s.reportDead()
+			s.leaked = true
+			return "stuck"
+		}
 		alldone := true
 		for _, d := range until {
 			select {
